@@ -627,7 +627,7 @@ func Check(prop *Property, tier string, seed uint64, workers int, verifDir strin
 			memLimitMiB = 700
 		}
 	}
-	runWatchdog := 45 * time.Minute
+	runWatchdog := 75 * time.Minute
 	if v, err := time.ParseDuration(os.Getenv("VERIF_RUN_WATCHDOG")); err == nil && v > 0 {
 		runWatchdog = v
 	}
